@@ -843,6 +843,15 @@ func (state *RuntimeState) getUsernameIfIPRestricted(VerifiedChains [][]*x509.Ce
 		logger.Printf("Invalid IP for cert: %s is not valid for incoming connection", r.RemoteAddr)
 		return "", time.Time{}, fmt.Errorf("Bad incoming ip addres"), nil
 	}
+	userPubKeyFP, err := getKeyFingerprint(userCert.PublicKey)
+	if err != nil {
+		return "", time.Time{}, nil, err
+	}
+	for _, revokedKeyFP := range state.Config.DenyTrustData.KeyDenyFPsshSha256 {
+		if userPubKeyFP == revokedKeyFP {
+			return "", time.Time{}, fmt.Errorf("revoked key with FP:%s", revokedKeyFP), nil
+		}
+	}
 	// Check if there are group restrictions on
 	ok, err := state.isAutomationUser(clientName)
 	if err != nil {
